@@ -73,6 +73,20 @@ func constOf(t byte, v [2]uint64) []byte {
 	panic("type")
 }
 
+func storeOf(t byte) []byte {
+	switch t {
+	case wb.I32:
+		return wb.MemArg(wasm.OpcodeI32Store, 2, 0)
+	case wb.I64:
+		return wb.MemArg(wasm.OpcodeI64Store, 3, 0)
+	case wb.F32:
+		return wb.MemArg(wasm.OpcodeF32Store, 2, 0)
+	case wb.F64:
+		return wb.MemArg(wasm.OpcodeF64Store, 3, 0)
+	}
+	return wb.Cat([]byte{wasm.OpcodeVecPrefix, byte(wasm.OpcodeVecV128Store)}, wb.U32(4), wb.U32(0))
+}
+
 func loadOf(t byte, addr uint32) []byte {
 	a := wb.I32Const(int32(addr))
 	switch t {
@@ -478,6 +492,36 @@ func buildModule(o *opInfo, imm []byte, constTuples [][]v128) []byte {
 	}
 	mbody = append(mbody, opBody(o, imm)...)
 	m.AddFunc(wb.Func{Results: []byte{o.result}, Body: mbody, Export: "m"})
+	// "spill + merge" placement: the operands are live across a call that happens only in the branch
+	// that evaluates the instruction, and stay live after the merge (they are stored afterwards), so
+	// they are reloaded from spill slots right at the instruction while the other predecessor of the
+	// merge block has already fixed their registers.  This is where multi-instruction lowerings that
+	// modify a temporary in place are vulnerable to the register allocator (findings F34, F35).
+	nop := m.AddFunc(wb.Func{})
+	{
+		np := uint32(len(o.params))
+		ps := append(append([]byte{}, o.params...), wb.I32)
+		var b []byte
+		b = append(b, wb.LocalGet(np)...) // c
+		b = append(b, wasm.OpcodeIf, 0x40)
+		b = append(b, constOf(o.result, v128{})...)
+		b = append(b, wb.LocalSet(np+1)...)
+		b = append(b, wasm.OpcodeElse)
+		b = append(b, wb.Call(nop)...)
+		for i := range o.params {
+			b = append(b, wb.LocalGet(uint32(i))...)
+		}
+		b = append(b, opBody(o, imm)...)
+		b = append(b, wb.LocalSet(np+1)...)
+		b = append(b, wasm.OpcodeEnd)
+		for i, p := range o.params {
+			b = append(b, wb.I32Const(int32(256+16*i))...)
+			b = append(b, wb.LocalGet(uint32(i))...)
+			b = append(b, storeOf(p)...)
+		}
+		b = append(b, wb.LocalGet(np+1)...)
+		m.AddFunc(wb.Func{Params: ps, Results: []byte{o.result}, Locals: []byte{o.result}, Body: b, Export: "sp"})
+	}
 	for k, ct := range constTuples {
 		// all operands constant
 		var cb []byte
@@ -768,9 +812,12 @@ func runOp(r *rand.Rand, o *opInfo, engines []engine, budget int) {
 			}
 			rep.Case(o.name + "/" + place + "/" + q.String())
 		}
-		for _, tup := range ts {
+		for k, tup := range ts {
 			check("param", tup, "p", flat(o.params, tup), false)
 			check("memory", tup, "m", nil, true)
+			if k%3 == 0 {
+				check("spill+merge", tup, "sp", append(flat(o.params, tup), 0), false)
+			}
 		}
 		for k, ct := range cts {
 			check("const", ct, fmt.Sprintf("c%d", k), nil, false)
